@@ -39,6 +39,14 @@ OK07(e) ==
         /\ e.len = Len(e.enc.bytes)
         /\ OkPkt(e.block_sfx, e.packet) /\ OkPkt(e.async_sfx, e.packet)
 
+\* a valid encoding in another stack's spelling (short forms spelled out, padded lengths, another property order): if
+\* the decoders accept the whole of it, every strict prefix of it is incomplete as well
+OK07Spelled(e) ==
+    (e.full_block.k = "ok" /\ e.full_async.k = "ok" /\ e.full_async.pos = e.len) =>
+        /\ Len(e.cuts) = e.len
+        /\ \A i \in 1..Len(e.cuts) :
+              e.cuts[i][1] = i - 1 /\ e.cuts[i][2] = "incomplete" /\ e.cuts[i][3] = "eof" /\ e.cuts[i][4] = "eof"
+
 \* ---- C06
 BlockIsAsync(blk, asy) == IF asy.k = "err" /\ asy.eof THEN blk.k = "incomplete" ELSE SameRes(blk, asy)
 PollVsLenient(e, pr) ==
@@ -107,6 +115,7 @@ BigFaultOK(e) ==
 
 Accept(e) ==
     CASE e.ev = "Cut"   -> (Prop = "C07" => OK07(e))
+      [] e.ev = "CutSpelled" -> (Prop = "C07" => OK07Spelled(e))
       [] e.ev = "Dec3"  -> (CASE Prop = "C06" -> OK06(e) [] Prop = "C03" -> OK03(e) [] OTHER -> TRUE)
       [] e.ev = "DecShort" -> (Prop = "C03" => OK03Short(e))
       [] e.ev = "BigDec" -> (CASE Prop = "C03" -> BigDec03(e) [] Prop = "C06" -> BigDec06(e) [] OTHER -> TRUE)
